@@ -121,15 +121,26 @@ Reset(P, owned) ==
 (* requeued.                                                                *)
 Defer(P, txs) == Requeue(P, txs)
 
+(* cosiSendAnnouncement, duplicate guard: the announcement passed               *)
+(* prepareAnnouncement, but at least one transaction of the batch is guarded    *)
+(* by the verifier of an installed proposal of the same round that is younger   *)
+(* than the gap (the transaction was submitted again while its proposal is in   *)
+(* flight). The batch is not installed; every UNGUARDED companion, wherever it  *)
+(* stands in the batch, is requeued; guarded members are left to their owner.   *)
+Guarded(P, t) == P.owner[t] # None /\ P.agg[P.owner[t]].on
+AnnounceEnabled(P, txs) == \E t \in Range(txs) : Guarded(P, t)
+Announce(P, txs) == Requeue(P, SelectSeq(txs, LAMBDA t : ~Guarded(P, t)))
+
 (* ---------------------------------------------------------------------- *)
 (* Retirement steps as operation records:                                   *)
 (*   [op |-> "Expire", now, base] [op |-> "Retry", a] [op |-> "Reset", owned]*)
-(*   [op |-> "Defer", txs]                                                  *)
+(*   [op |-> "Defer", txs]  [op |-> "Announce", txs] (duplicate guard)      *)
 Apply(P, o, ideal) ==
     CASE o.op = "Expire" -> Expire(P, o.now, o.base, ideal)
       [] o.op = "Retry"  -> Retry(P, o.a, ideal)
       [] o.op = "Reset"  -> Reset(P, Range(o.owned))
       [] o.op = "Defer"  -> Defer(P, o.txs)
+      [] o.op = "Announce" -> Announce(P, o.txs)
 
 \* the proposals the step retires
 Retired(P, o) ==
@@ -137,13 +148,14 @@ Retired(P, o) ==
       [] o.op = "Retry"  -> {o.a}
       [] o.op = "Reset"  -> { a \in Agg : P.agg[a].on }
       [] o.op = "Defer"  -> {}
+      [] o.op = "Announce" -> {}
 
 \* the proposals a step retired, as observed: installed before, gone afterwards
 RetiredObs(P, Q) == { a \in Agg : P.agg[a].on /\ ~Q.agg[a].on }
 
 \* the transactions of the retired proposal(s) R (for a deferral: of the proposal that was not installed)
 RetiredTxsR(o, R) ==
-    IF o.op = "Defer" THEN Range(o.txs) ELSE UNION { TxsOf(a) : a \in R }
+    IF o.op \in {"Defer", "Announce"} THEN Range(o.txs) ELSE UNION { TxsOf(a) : a \in R }
 RetiredTxs(P, o) == RetiredTxsR(o, Retired(P, o))
 
 \* t is owned by a proposal that is still active after the step (R = the retired ones)
